@@ -5,6 +5,7 @@ pub mod stdspecs {
     use vstd::prelude::*;
     use std::borrow::Cow;
     use std::alloc::Allocator;
+    use vstd::std_specs::cmp::*;
     use super::spec::*;
     verus! {
 
@@ -160,6 +161,24 @@ pub mod stdspecs {
                 &&& (r.unwrap()@.len() < s.len() ==> !splitn_done(final(it)) && splitn_rest(final(it)) == s.subrange(r.unwrap()@.len() as int + 1, s.len() as int))
                 &&& (r.unwrap()@.len() == s.len() ==> splitn_done(final(it)))
             });
+
+    // ---- Option<&T>::copied, core::mem::replace, <[T]>::to_owned --------------------------------------------------------
+    pub assume_specification<'a, T: Copy>[ Option::<&'a T>::copied ](o: Option<&'a T>) -> (r: Option<T>)
+        ensures o is None ==> r is None, o matches Some(x) ==> r == Some(*x);
+    pub assume_specification<T>[ core::mem::replace::<T> ](dest: &mut T, src: T) -> (r: T)
+        ensures r == *old(dest), *final(dest) == src;
+
+    // ---- core::cmp::min / max (the method forms Ord::min / Ord::max have vstd specifications) -----------------------
+    pub assume_specification<T: Ord> [ core::cmp::min ] (a: T, b: T) -> (r: T)
+        ensures
+            a.cmp_spec(&b) != core::cmp::Ordering::Greater ==> r == a,
+            a.cmp_spec(&b) == core::cmp::Ordering::Greater ==> r == b,
+    ;
+    pub assume_specification<T: Ord> [ core::cmp::max ] (a: T, b: T) -> (r: T)
+        ensures
+            a.cmp_spec(&b) == core::cmp::Ordering::Greater ==> r == a,
+            a.cmp_spec(&b) != core::cmp::Ordering::Greater ==> r == b,
+    ;
 
     // ---- str::splitn(n, c) with an ASCII char separator ---------------------------------------------------------
     // str::splitn is generic over the unstable `Pattern` trait, whose generic associated type Verus cannot declare, so the call is
